@@ -81,7 +81,10 @@ def run_check(prop, tier, verif_seed, workers=16, runs=None, out=sys.stdout, wri
     budget = 40.0 if tier == 'quick' else 240.0
     for cls, rs_ in list(unknown.items())[:4]:
         first = min(rs_, key=lambda r: shrink.size_of(r.get('scenario')))
-        sc, rec, st = minimise(prop, first, tier, cfg, budget / max(1, min(4, len(unknown))))
+        if os.environ.get('DFSIM_NO_SHRINK'):
+            sc, rec, st = sc_of(first), first, {'skipped': True}
+        else:
+            sc, rec, st = minimise(prop, first, tier, cfg, budget / max(1, min(4, len(unknown))))
         shrink_stats.append(st)
         e = findings.match(prop.ID, sc, rec, entries)
         if e is not None:
